@@ -25,6 +25,11 @@ REPLAY_DIR = os.path.join(EVID_DIR, 'replays')
 KNOWN_FILE = os.path.join(env.VERIF, 'known_findings.json')
 
 MAX_REPLAYS_PER_SIG = 2
+CALL_TIMEOUT_S = 30
+
+
+class CallTimeout(Exception):
+    pass
 MAX_SAMPLES = 6
 
 
@@ -119,6 +124,7 @@ class Ctx:
         self.notes = []
         self.replay = replay
         self.deadline = None
+        self.timeouts = []
         self.fail_keys = None   # whitelist of signature keys kept in *failure* signatures
 
     # ---- budgeting -------------------------------------------------------
@@ -179,9 +185,22 @@ class Ctx:
 
     def guarded(self, check, sig, fn, *a, expect_exc=(), data=None, **k):
         """call library code; an unexpected exception is a violation of `check`"""
+        import signal
+
+        def _alarm(signum, frame):
+            raise CallTimeout(f'library call exceeded {CALL_TIMEOUT_S}s')
+        old = signal.signal(signal.SIGALRM, _alarm)
+        signal.alarm(CALL_TIMEOUT_S)
         try:
             return True, fn(*a, **k)
         except expect_exc as exc:
+            return False, exc
+        except CallTimeout as exc:
+            # a generous wall-clock watchdog: recorded as a witness of non-termination within the budget;
+            # the module decides (by a logical argument, e.g. a repeated state) whether it is a violation
+            self.count('call_timeouts')
+            self.timeouts.append({'check': check, 'sig': jsonable(sig or {}),
+                                  'data': jsonable(data() if callable(data) else data)})
             return False, exc
         except Exception as exc:  # noqa
             tb = traceback.format_exc(limit=6)
@@ -189,13 +208,16 @@ class Ctx:
                       f'{type(exc).__name__}: {exc}\n{tb}',
                       data() if callable(data) else data)
             return False, exc
+        finally:
+            signal.alarm(0)
+            signal.signal(signal.SIGALRM, old)
 
     def state(self):
         return {'prop': self.prop, 'tier': self.tier, 'seed': self.seed, 'shard': self.shard,
                 'evaluations': self.evaluations, 'sigs': self.sigs, 'trivial': self.trivial,
                 'samples': self.samples, 'counters': self.counters,
                 'violations': self.violations, 'vio_by_sig': self.vio_by_sig,
-                'notes': self.notes, 'wall_s': self.elapsed()}
+                'notes': self.notes, 'wall_s': self.elapsed(), 'timeouts': self.timeouts[:5]}
 
 
 # ---------------------------------------------------------------------------
@@ -236,7 +258,7 @@ def match_known(prop, vio, known):
 # ---------------------------------------------------------------------------
 def merge_states(states):
     out = {'evaluations': 0, 'sigs': {}, 'trivial': 0, 'samples': [], 'counters': {},
-           'violations': [], 'vio_by_sig': {}, 'notes': [], 'shards': len(states)}
+           'violations': [], 'vio_by_sig': {}, 'notes': [], 'shards': len(states), 'timeouts': []}
     for st in states:
         out['evaluations'] += st['evaluations']
         out['trivial'] += st['trivial']
@@ -251,6 +273,7 @@ def merge_states(states):
             if len(out['samples']) < MAX_SAMPLES:
                 out['samples'].append(s)
         out['notes'].extend(st['notes'])
+        out['timeouts'].extend(st.get('timeouts', []))
     return out
 
 
@@ -304,6 +327,7 @@ def finish(prop, mod, tier, seed, merged, wall_s, inconclusive_reasons, reach=No
         'technique': getattr(mod, 'TECHNIQUE', ''),
         'tree': env.tree_info(),
         'notes': merged['notes'][:40],
+        'call_timeouts': merged.get('timeouts', [])[:3],
     }
     if extra_cov:
         cov.update(extra_cov)
